@@ -308,26 +308,32 @@ def refSub (name : String) (depth stale : Nat) : P Bytes :=
     let (b, _) ← fieldBody depth 10
     pure b)
 
-/-- `genbankReferenceSubfieldParser`: `pars.Any` of the six alternatives, each restoring the
-position itself -/
+/-- the six alternatives of `genbankReferenceSubfieldParser` in the order of its `pars.Any` -/
+def refAltList : List (String × (Reference → Bytes → Reference)) := [
+  ("AUTHORS", fun r b => { r with authors := b }),
+  ("CONSRTM", fun r b => { r with group := b }),
+  ("TITLE", fun r b => { r with title := b }),
+  ("JOURNAL", fun r b => { r with journal := b }),
+  ("PUBMED", fun r b => { r with pubmed := some b }),
+  ("REMARK", fun r b => { r with comment := b })]
+
+/-- the loop of `pars.Any` (its frame is on the stack): every alternative restores the position
+itself (`Map`); all failed → `Pop`, failure -/
+def refAlts (depth stale : Nat) (r : Reference) :
+    List (String × (Reference → Bytes → Reference)) → P (Reference × Nat)
+  | [] => do pop; fail
+  | (n, set) :: rest => do
+    match ← attempt (refSub n depth stale) with
+    | some b => do drop; pure (set r b, b.length)
+    | none => do
+      if !(← pushed) then fail
+      refAlts depth stale r rest
+
+/-- `genbankReferenceSubfieldParser`: one sub-field; also the length of its body (the token the
+result object holds afterwards) -/
 def refSubfield (depth stale : Nat) (r : Reference) : P (Reference × Nat) := do
   push
-  let alts : List (String × (Reference → Bytes → Reference)) := [
-    ("AUTHORS", fun r b => { r with authors := b }),
-    ("CONSRTM", fun r b => { r with group := b }),
-    ("TITLE", fun r b => { r with title := b }),
-    ("JOURNAL", fun r b => { r with journal := b }),
-    ("PUBMED", fun r b => { r with pubmed := some b }),
-    ("REMARK", fun r b => { r with comment := b })]
-  let rec go : List (String × (Reference → Bytes → Reference)) → P (Reference × Nat)
-    | [] => do pop; fail
-    | (n, set) :: rest => do
-      match ← attempt (refSub n depth stale) with
-      | some b => do drop; pure (set r b, b.length)
-      | none => do
-        if !(← pushed) then fail
-        go rest
-  go alts
+  refAlts depth stale r refAltList
 
 def refSubfields (depth : Nat) : Nat → Nat → Reference → P Reference
   | 0, _, r => pure r
